@@ -186,8 +186,14 @@ func readStream(o ropts, data []byte, bad bool, chunk int) string {
 	}
 	defer wf.Close()
 	last := int64(-1)
+	type keptV struct {
+		v *gowarc.Validation
+		k string
+	}
+	var kept []keptV
 	for i := 0; i < 40; i++ {
 		rec, off, v, err := wf.Next()
+		kept = append(kept, keptV{v, kinds(v)})
 		switch {
 		case err == nil && rec != nil:
 			shown := showRecord(rec, v)
@@ -231,6 +237,12 @@ func readStream(o ropts, data []byte, bad bool, chunk int) string {
 			break
 		}
 		last = off
+	}
+	// the findings handed out with an earlier record are the caller's: later calls must not change them
+	for i, kv := range kept {
+		if kv.v != nil && kinds(kv.v) != kv.k {
+			obs = append(obs, fmt.Sprintf("VALIDATION-MUTATED@%d", i))
+		}
 	}
 	return strings.Join(obs, "|")
 }
